@@ -19,6 +19,8 @@ RULE = ("states = distinct (salt, declaration order, weight vector) programs com
         "independently and located in the exact (Fraction) partition; plus known answers of the position function")  # fmt: skip
 
 SALTS = [None, "", "s", "exp-1", "é", "日本", "🎲", "e\u0301", "\u212b\u2126", "\u1100\u1161", "q\u0323\u0307", "S" * 140, "l’été", "“beta”", "„Neu“", "‹x›", "kid's", "pricing-$$", "save%%", "a{{b}}", "fr&quot;x", "exp\\new", "a\\", "\\t", 'say "hi"', "%s", "{0}"]
+# further salts, each with a few declaration orders only: invisible / format characters, doubled template escapes, character references
+SALTS_EXTRA = ["\ufeffa", "a\ufeffb", "a\u200b", "\u00adx", "x\u2060y", "\u200ea\u200f", "a\u061cb", "\ufff9a\ufffb", "a\u2028b", "\u00a0", "a\u3000"]
 NAMES = ["a", "ab", "b", "ba"]
 # Mixed-case / underscore / digit names.  "Alphabetical order" is taken as code-point order of the
 # field names (what sorted() gives and what every release so far has published): any other order for
@@ -141,7 +143,8 @@ def _deep(units):
 
 def run(res, tier):
     orders = [p for k in (1, 2, 3) for p in permutations(NAMES, k)] + [p for ns in NAMES2 for p in permutations(ns)] + DUPLICATES
-    units = [(s, o, w, tier) for s in SALTS for o in orders for w in weight_vectors()] + [(None, "COLLIDE", w, tier) for w in weight_vectors()] + [(None, "RECOMPILE", "eq64", tier), (None, "RECOMPILE", "123", tier)]
+    units = [(s, o, w, tier) for s in SALTS_EXTRA for o in (("a",), ("b", "a"), ("Region", "account_id")) for w in ("eq64", "123")] + \
+        [(s, o, w, tier) for s in SALTS for o in orders for w in weight_vectors()] + [(None, "COLLIDE", w, tier) for w in weight_vectors()] + [(None, "RECOMPILE", "eq64", tier), (None, "RECOMPILE", "123", tier)]
     for w in pmap(_work, permuted(units, "c12"), chunk=8):
         res.merge_worker(w)
     from .. import deepvals
